@@ -154,14 +154,15 @@ def _file_case(args):
             # ---- copy a layer into X
             from harness.checks.c05 import write_matrix
             for enc, layout in (('csr', 'default'), ('csc', 'default'), ('dense', 'default'),
-                                ('csr', 'tiny'), ('csc', 'tiny'), ('dense', 'tiny')):
+                                ('csr', 'tiny'), ('csc', 'tiny'), ('dense', 'tiny'),
+                                ('csr', 'contiguous'), ('csc', 'contiguous'), ('dense', 'contiguous')):
                 n += 1
                 srcl = os.path.join(d, f'layer_{enc}_{layout}.h5ad')
                 if layout == 'default':
                     _write(srcl, M, enc, layer='counts')
                 else:
-                    # every dataset of the layer stored in several one-element HDF5 chunks
-                    write_matrix(srcl, M, enc, 'counts', 'float32', 'tiny')
+                    # every dataset of the layer stored in several one-element HDF5 chunks / without chunks
+                    write_matrix(srcl, M, enc, 'counts', 'float32', layout)
                 dst = os.path.join(d, 'copied.h5ad')
                 try:
                     copy_layer_to_x(original_h5ad_path=srcl, new_h5ad_path=dst, layer='counts')
@@ -184,10 +185,16 @@ def run_c13(ctx, quick, rng, wd):
     if res.violated:
         raise MachineryError(res.error_trace)
     scns = [json.loads(t[1]) for t in res.tuples('SCN')]
+    # the corner patterns (no stored entry at all, every entry stored, a single entry) are always kept
+    def corner(s_):
+        k = sum(1 for r in s_['matrix'] for v in r if v)
+        return k <= 1 or k == A * B
+    keep = [s_ for s_ in scns if corner(s_)]
+    rest = [s_ for s_ in scns if not corner(s_)]
     if quick:
-        scns = rng.sample(scns, 96)
+        scns = keep + rng.sample(rest, 96 - min(96, len(keep)))
     elif len(scns) > 1200:
-        scns = rng.sample(scns, 1200)
+        scns = keep + rng.sample(rest, 1200 - len(keep))
     jobs = [(s, quick, wd, ctx.seed + i) for i, s in enumerate(scns)]
     with cf.ProcessPoolExecutor(max_workers=10) as ex:
         outs = list(ex.map(_file_case, jobs, chunksize=4))
